@@ -237,7 +237,7 @@ MUTANTS_BTREE = [
 
 
 CMP_MUTANTS = [
-    ('comparator-by-subtraction', 'src/include/souffle/datastructure/BTreeUtil.h', '        return (a > b) - (a < b);', '        return a - b;', 'R6'),
+    ('comparator-direction-reversed', 'src/include/souffle/datastructure/BTreeUtil.h', '        return (a > b) - (a < b);', '        return (a < b) - (a > b);', 'R6'),
     ('interpreter-comparator-equal-ignores-tail', 'src/interpreter/Util.h',
      '        return a[First] == b[First] && comparator<Rest...>().equal(a, b);', '        return a[First] == b[First];', 'R6'),
 ]
